@@ -23,9 +23,9 @@ func ConfigHeaderToDBHeader(confighdr *config.Header) *models.Header {
 		Gid:             confighdr.Gid,
 		Uname:           confighdr.Uname,
 		Gname:           confighdr.Gname,
-		Modtime:         confighdr.Modtime,
-		Accesstime:      confighdr.Accesstime,
-		Changetime:      confighdr.Changetime,
+		Modtime:         confighdr.Modtime.UTC(), // The index stores times as text; the text of a time in a zone without a name (i.e. parsed from `+02:00`) can't be read back, so all times are stored in UTC
+		Accesstime:      confighdr.Accesstime.UTC(),
+		Changetime:      confighdr.Changetime.UTC(),
 		Devmajor:        confighdr.Devmajor,
 		Devminor:        confighdr.Devminor,
 		Paxrecords:      confighdr.Paxrecords,
@@ -111,9 +111,9 @@ func TarHeaderToDBHeader(record, lastKnownRecord, block, lastKnownBlock int64, t
 		Gid:             int64(tarhdr.Gid),
 		Uname:           tarhdr.Uname,
 		Gname:           tarhdr.Gname,
-		Modtime:         tarhdr.ModTime,
-		Accesstime:      tarhdr.AccessTime,
-		Changetime:      tarhdr.ChangeTime,
+		Modtime:         tarhdr.ModTime.UTC(), // See ConfigHeaderToDBHeader
+		Accesstime:      tarhdr.AccessTime.UTC(),
+		Changetime:      tarhdr.ChangeTime.UTC(),
 		Devmajor:        tarhdr.Devmajor,
 		Devminor:        tarhdr.Devminor,
 		Paxrecords:      string(paxRecords),
